@@ -1625,11 +1625,26 @@ fn dummy_functions(compiler: &PrimaryCodegen) -> Result<PrimaryCodegen, CompileE
     fold_m(
         &|compiler: &PrimaryCodegen, form: &HelperForm| match form {
             HelperForm::Defun(false, defun) => {
+                // A defun can't share its name with an inline function.
+                fail_if_present(defun.loc.clone(), &compiler.inlines, &defun.name, ())?;
                 let mut c_copy = compiler.clone();
                 c_copy.parentfns.insert(defun.name.clone());
                 Ok(c_copy)
             }
             HelperForm::Defun(true, defun) => Ok(compiler)
+                .and_then(|comp| {
+                    // The defuns seen so far are only recorded in parentfns.
+                    if compiler.parentfns.contains(&defun.name) {
+                        return Err(CompileErr(
+                            defun.loc.clone(),
+                            format!(
+                                "Cannot redefine {}",
+                                SExp::Atom(defun.loc.clone(), defun.name.clone())
+                            ),
+                        ));
+                    }
+                    Ok(comp)
+                })
                 .and_then(|comp| {
                     fail_if_present(defun.loc.clone(), &compiler.inlines, &defun.name, comp)
                 })
